@@ -31,7 +31,7 @@ def floor(tier):
 
 
 def cases(tier, rng):
-    n = 84 if tier == "quick" else 1500
+    n = 84 if tier == "quick" else 5000
     out = []
     for i in range(n):
         mon = "formula" if i % 6 < 4 else ("continuity" if i % 6 == 4 else "reject")
